@@ -27,14 +27,14 @@ from checks import semantics_common as sc
 from vlib import core
 
 FAMILIES = ("jsonschema", "openapi", "cue", "pipeline", "passes", "veneers", "sequences", "parameters", "cycles", "cyclepasses", "cycleveneers",
-            "veneerpaths", "ifexpr", "discriminators", "handtypes", "drafts")
+            "veneerpaths", "ifexpr", "discriminators", "handtypes", "handtypeveneers", "drafts")
 # small families whose cases are cheap: run completely in every tier
-DENSE = ("sequences", "parameters", "cycles", "cyclepasses", "cycleveneers", "veneerpaths", "ifexpr", "discriminators", "handtypes", "drafts")
+DENSE = ("sequences", "parameters", "cycles", "cyclepasses", "cycleveneers", "veneerpaths", "ifexpr", "discriminators", "handtypes", "handtypeveneers", "drafts")
 VALID_INPUT_FAMILIES = ("discriminators",)
 # how a family's document enters the pipeline
 KIND = {"jsonschema": "jsonschema", "openapi": "openapi", "cue": "cue", "pipeline": "whole", "parameters": "whole", "passes": "passes",
         "cyclepasses": "passes", "veneers": "veneers", "sequences": "veneers", "cycleveneers": "veneers", "veneerpaths": "veneers",
-        "ifexpr": "whole", "handtypes": "passes", "drafts": "jsonschema"}
+        "ifexpr": "whole", "handtypes": "passes", "handtypeveneers": "veneers", "drafts": "jsonschema"}
 TIMEOUT_MS = 20000             # CPU time of the worker process per run (wall time only bounds a blocked run: 15 x)
 CONFIRM_TIMEOUT_MS = 120000    # budget of the confirmation run of a timeout (alone, small stack cap)
 NPROC = 12
